@@ -164,6 +164,7 @@ func buildSens(c sensCase) *doctree.Node {
 		addProp("free", obj().Set("type", str("object")).Set("default", obj().
 			Set("list", doctree.NewArr(str(S(0)), num(V(0)), doctree.NewNull(), doctree.NewBool(true), str(S(1)))).
 			Set(S(2), str(S(3))).
+			Set("nothing", doctree.NewNull()).
 			Set("n", num(V(1)))).
 			Set("x-custom", doctree.NewArr(str(S(0)), obj().Set(S(1), str(S(2))))))
 	}
